@@ -130,7 +130,8 @@ MUTANTS = [
     # ---- C13
     ('C13', 'revert-firstline', ('revert', 'f73bdf8'), 'C13'),
     ('C13', 'revert-last-chunk-wait', ('revert', '0faf553'), 'C13.b'),
-    ('C13', 'chunked-not-awaited', (R, HTTP, "        if (clen or req.headers.get('Transfer-Encoding') == 'chunked') and not parser.is_message_complete():\n            return None\n",
+    ('C13', 'revert-chunked-verdict', ('revert', '315a964'), 'C13.c'),
+    ('C13', 'chunked-not-awaited', (R, HTTP, "        if (clen or parser.is_chunked()) and not parser.is_message_complete():\n            return None\n",
                                     "        if clen and not parser.is_message_complete():\n            return None\n"), 'C13.c'),
     ('C13', 'parser-kept-after-request', (R, HTTP, "        req.body = BytesIO(parser.recv_body())\n        del self._buffers[sock]\n", "        req.body = BytesIO(parser.recv_body())\n"), 'C13.d'),
     ('C13', 'headers-data-not-appended', (R, PARSER, "                if data:\n                    self._buf.append(data)\n                    data = b''\n\n                try:", "                try:"), 'C13.a'),
